@@ -211,3 +211,7 @@ func vh_C14_L2_deferred_reset_reevaluated() {
 	vassert(!still && len(a.reconfigRequests) == 0, "stream removed, request forgotten")
 	vcover("end")
 }
+
+// C14.L4: end-of-file signalled by a stream reset is final for readers: a read deadline
+// passing later does not replace it (same obligation as C18.L4).
+func vh_C14_L4_eof_is_final() { vh_C18_L4_read_deadline() }
